@@ -80,6 +80,15 @@ Theorem C02_twin_block : forall H bl a s', curve_of a = 1 -> twin (sig_of a) = S
 Proof. exact twin_block. Qed.
 Print Assumptions C02_twin_block.
 
+(* Verdicts do not depend on verification history: whatever a pool has verified before (the genuine certificate, other
+   leaves, earlier tampered encodings), the verdict on a certificate is the verdict of a single verification - in
+   particular of verify_one. The implementation is checked against this on long-lived pools. *)
+Theorem C02_history_independent : forall (verdict : anycert -> bool) h seen a,
+  last (verify_history verdict seen (h ++ [a])) false = verdict a /\
+  verify_history verdict seen (h ++ [a]) = verify_history verdict seen h ++ [verdict a].
+Proof. exact history_independent. Qed.
+Print Assumptions C02_history_independent.
+
 (* The premises of C02_tamper are satisfiable by a non-empty set of issued certificates. *)
 Example C02_nonvacuous :
   let sig_ok := fun (cv : N) (k m s : list N) => Corr.nlist_eqb m (tbs_v2 sample_issued) && Corr.nlist_eqb s [7; 7] in
